@@ -279,3 +279,84 @@ def install_taint(S):
     S.rating_cls.id = Tainted("id", log)
     S.rating_cls.name = Tainted("name", log)
     return log
+
+
+# ---------------------------------------------------------------- R-mode contracts of v, w, vt, wt
+_V = z3.Function("V", R, R, R)
+_W = z3.Function("W", R, R, R)
+_Vt = z3.Function("Vt", R, R, R)
+_Wt = z3.Function("Wt", R, R, R)
+TM_UF = {"v": _V, "w": _W, "vt": _Vt, "wt": _Wt}
+
+
+def tm_contract_functions():
+    """R-mode stand-ins for the exported v, w, vt, wt: fresh applications of
+    V, W, Vt, Wt constrained by the value clauses of their contracts (C17
+    verifies the bodies against them):  v >= 0;  0 <= w <= 1;  0 <= wt <= 1.
+    The relational clauses (v >= vt >= -v(-x); |vt(x,t) + vt(-x,t)| <= 2t) are
+    instantiated by the obligations that use them."""
+    def mk(name):
+        f = TM_UF[name]
+
+        def g(x, t):
+            c = cur()
+            a = f(term(x), term(t))
+            if name == "v":
+                c.fact(("V", a), a >= 0, "sign", a)
+            elif name in ("w", "wt"):
+                c.fact((name, a), z3.And(a >= 0, a <= 1), "sign", a)
+            c.apps.setdefault(name, {})[a.get_id()] = (a, term(x), term(t))
+            return SymNum(a, KFLOAT)
+        return g
+    return {n: mk(n) for n in TM_UF}
+
+
+def stub_tm_real(S):
+    fs = tm_contract_functions()
+    for n, f in fs.items():
+        S.stub_wl(n, f)
+    return fs
+
+
+class SymX:
+    """symbolic instantiation of the spec's numeric interface"""
+    from fractions import Fraction as _F
+    half = _F(1, 2)
+
+    def __init__(self, tm=None):
+        from .symrt import SYM_MATH, sym_max, sym_min
+        self.sqrt, self.exp = SYM_MATH.sqrt, SYM_MATH.exp
+        self.max, self.min = sym_max, sym_min
+        tm = tm or tm_contract_functions()
+        self.v, self.w, self.vt, self.wt = tm["v"], tm["w"], tm["vt"], tm["wt"]
+
+
+_Gamma = z3.Function("Gamma", R, R, R, R, R, R, R)
+
+
+def uninterpreted_gamma(ctx_getter=cur):
+    """a custom gamma callback: an arbitrary function of its arguments with
+    value >= 0 and no side effect (A-gamma).  The team argument enters through
+    the team's index."""
+    def code_side(c, k, mu, sigma_squared, team, rank):
+        # `team` is the list of rating objects of team i: identify it by index
+        idx = getattr(team, "_pyvc_index", None)
+        if idx is None:
+            idx = code_side.index_of(team)
+        a = _Gamma(term(c), term(k), term(mu), term(sigma_squared), z3.RealVal(idx), term(rank))
+        ctx_getter().fact(("Gamma", a), a >= 0, "sign", a)
+        return SymNum(a, KFLOAT)
+
+    def spec_side(c, n, theta_i, s_i, i, rank_i):
+        a = _Gamma(term(c), term(n), term(theta_i), term(s_i), z3.RealVal(i), term(rank_i))
+        ctx_getter().fact(("Gamma", a), a >= 0, "sign", a)
+        return SymNum(a, KFLOAT)
+    code_side.teams = None
+
+    def index_of(team):
+        for i, t in enumerate(code_side.teams):
+            if t is team:
+                return i
+        raise EngineError("gamma called with an unknown team object")
+    code_side.index_of = index_of
+    return code_side, spec_side
